@@ -151,8 +151,10 @@ def lz(fn, reach=NOEXC, replace=(), **kw):
     G('lz.' + fn, ['C04'], 'lz', 'HuffLZ_' + fn, replace=BSRC + HTC + ['op2_memcpy', 'op2_memset'] + list(replace), reach=reach, trusted=LZ_TRUST, **kw)
 lz('GetOffsetModifiers', what='code arithmetic == LZHUF d_code/d_len tables for all 256 byte values')
 lz('WriteCharToBuffer')
-lz('GetRepeatOffset', replace=['HuffLZ_GetOffsetModifiers'], flags=['--unwind', '8', '--unwinding-assertions'], loop_contracts=True, timeout=900,
-   what='== reference DecodePosition over the reference bit sequence; result < 4096')
+lz('GetRepeatOffset', replace=['HuffLZ_GetOffsetModifiers'], flags=['--unwind', '8', '--unwinding-assertions'], loop_contracts=False, timeout=900,
+   what='result < 4096, bit position monotone, reader invariant kept')
+G('lz.lemma_repeat_offset_ref', ['C04'], 'lz', None, harness='h_lemma_repeat_offset_ref', replace=BSRC + ['HuffLZ_GetOffsetModifiers'], reach=['maximal distance reachable'],
+  flags=['--unwind', '9', '--unwinding-assertions'], loop_contracts=False, timeout=900, what='GetRepeatOffset == reference DecodePosition (LZHUF) over the reference bit sequence, any buffer, any bit position')
 lz('GetNextCode', solver='cvc5', timeout=900, what='tree walk terminates, stays in the arrays, returns a symbol < 314 (needs the quantified structural tree invariant)')
 lz('DecompressCode', reach=['normal exit', 'exceptional exit'], replace=['HuffLZ_GetNextCode', 'HuffLZ_GetRepeatOffset', 'HuffLZ_WriteCharToBuffer'], timeout=900,
    what='one code appends 1..60 bytes, never moves the read index; refused update propagates without writing')
@@ -161,3 +163,23 @@ lz('FillDecompressBuffer', reach=['normal exit', 'exceptional exit'], replace=['
 lz('CopyAvailableData', timeout=900, what='delivers min(size, unread) oldest bytes in order, advances the read index by the count')
 lz('GetInternalBuffer', reach=['normal exit', 'exceptional exit'], replace=['HuffLZ_FillDecompressBuffer'], timeout=900)
 lz('InitializeDecompressBuffer')
+
+# ---- U-BMPH (C08, C11, C09, C18)
+BMP_REPLAY = {'driver': 'bmp_replay.cpp', 'case': 'bmp'}
+def bmph(fn, props, reach=NOEXC, replace=(), **kw):
+    G('bmph.' + fn, props, 'bmph', fn, replace=list(replace), reach=reach, replay=BMP_REPLAY, **kw)
+EXC2 = ['normal exit', 'exceptional exit']
+bmph('ImageHeader_IsValidBitCount', ['C08', 'C11']); bmph('ImageHeader_IsIndexedImage', ['C08', 'C11'])
+bmph('ImageHeader_VerifyValidBitCount', ['C08', 'C11'], reach=EXC2, replace=['ImageHeader_IsValidBitCount'])
+bmph('ImageHeader_CalcPixelByteWidth', ['C08', 'C11']); bmph('ImageHeader_CalculatePitch', ['C08', 'C11'], replace=['ImageHeader_CalcPixelByteWidth'])
+bmph('ImageHeader_CalcMaxIndexedPaletteSize', ['C08', 'C11'], reach=EXC2, replace=['ImageHeader_IsIndexedImage'])
+bmph('ImageHeader_CalcMaxIndexedPaletteSize0', ['C08', 'C11'], reach=EXC2, replace=['ImageHeader_CalcMaxIndexedPaletteSize'])
+bmph('ImageHeader_Create', ['C08', 'C18'], reach=EXC2, replace=['ImageHeader_VerifyValidBitCount'])
+bmph('ImageHeader_Validate', ['C08', 'C11'], reach=EXC2, replace=['ImageHeader_VerifyValidBitCount', 'ImageHeader_CalcMaxIndexedPaletteSize0'])
+bmph('BmpHeader_Create', ['C08', 'C18']); bmph('BmpHeader_IsValidFileSignature', ['C08', 'C11'])
+bmph('BmpHeader_VerifyFileSignature', ['C08', 'C11'], reach=EXC2, replace=['BmpHeader_IsValidFileSignature'])
+bmph('BitmapFile_VerifyIndexedPaletteSizeDoesNotExceedBitCount', ['C08', 'C11'], reach=EXC2, replace=['ImageHeader_CalcMaxIndexedPaletteSize'])
+bmph('BitmapFile_VerifyPixelSizeMatchesImageDimensionsWithPitch', ['C08', 'C11'], reach=EXC2, timeout=900)
+bmph('BitmapFile_VerifyIndexedImageForSerialization', ['C08', 'C11'], reach=EXC2, replace=['ImageHeader_IsIndexedImage'])
+bmph('BitmapFile_GetScanLineOrientation', ['C08', 'C09']); bmph('BitmapFile_AbsoluteHeight', ['C08', 'C11'])
+bmph('Color_SwapRedAndBlue', ['C08', 'C09', 'C10'])
